@@ -1,5 +1,5 @@
 (* C16 -- Link-format documents produced by the writer parse back to the same content. *)
-From CoapV Require Import Base LinkFormat Suite16 proofs.P16.
+From CoapV Require Import Base LinkFormat Suite16 proofs.P16 proofs.P16b.
 
 (* for every document (any number of links and attributes, values of any length; targets
    without '>', keys free of separators, quoted values arbitrary, plain values alphanumeric,
@@ -15,6 +15,18 @@ Print Assumptions C16_roundtrip.
 Theorem C16_attr_auto_wf : forall k v, aval_wf (snd (attr_auto k v)) = true.
 Proof. intros k v. unfold attr_auto. destruct (forallb is_alnum v) eqn:E; [exact E|reflexivity]. Qed.
 Print Assumptions C16_attr_auto_wf.
+
+(* integer values: the text attr_u32 / attr_u16 write is a non-empty digit string without a leading zero (except for 0)
+   that denotes the integer -- for every integer below 10^40, so every u16, u32 and u64 -- and is therefore inside the
+   domain of C16_roundtrip: it parses back as exactly that text *)
+Theorem C16_integer_text : forall n, n < 10 ^ 40 ->
+  forallb is_digit (digits n) = true /\ digits n <> [] /\ dec_value (digits n) = n /\
+  (n <> 0 -> hd 0 (digits n) <> 48) /\ (n = 0 -> digits n = [48]).
+Proof. exact digits_spec. Qed.
+Print Assumptions C16_integer_text.
+Theorem C16_integer_in_domain : forall n, n < 10 ^ 40 -> aval_wf (AInt (digits n)) = true.
+Proof. exact int_attr_wf. Qed.
+Print Assumptions C16_integer_in_domain.
 
 Example C16_example :
   let d := [([47; 97], [attr_auto [116] [34; 44; 59; 92; 10]; ([110], AInt (digits 40))]); ([], [])] in
